@@ -270,3 +270,49 @@ def ge6(P, C):
                  "division by %s only under %s" % (f.render(f.nodes[d]["ch"][1]), how) if ok else
                  "division by the knot span %s without a test that it is positive: over a repeated knot this is 0/0" % f.render(f.nodes[d]["ch"][1]))
     return n
+
+
+def ge7(P, C):
+    """GE-7: after the product every index column of every entry is written."""
+    C.rule("GE-7", "slicemultiply rebuilds the n-tuple after the product: the index columns have just been realloc'ed to the new entry count "
+           "(their contents beyond the old count are indeterminate), so for every entry the column of the multiplied dimension and, in a "
+           "plain loop over all the other dimensions (no branch, no continue/break), every other column is stored. A column that is skipped "
+           "for some axis (`an axis of length one only ever has index 0`) keeps stale indices or heap garbage for the new entries", floor=2)
+    f = P.one("slicemultiply", file_endswith="splineutil.c")
+    stores = []
+    for i in f.walk():
+        ap = ts.assign_parts(f, i)
+        if not ap or ap[1] is None or f.nodes[i].get("op", "=") != "=":
+            continue
+        l = f.strip(ap[0])
+        # a->i[<col>][<row>]
+        if f.k(l) == "ArraySubscriptExpr":
+            inner = f.strip(f.nodes[l]["ch"][0])
+            if f.k(inner) == "ArraySubscriptExpr":
+                m = f.strip(f.nodes[inner]["ch"][0])
+                if f.k(m) == "MemberExpr" and f.nodes[m].get("member") == "i" and "ndsparse" in f.nodes[m].get("fieldOf", ""):
+                    stores.append((i, f.render(f.nodes[inner]["ch"][1]).replace(" ", ""), f.render(f.nodes[l]["ch"][1]).replace(" ", "")))
+    # only the stores after the realloc (the unflattening) matter
+    re_ = [i for i, cal in f.calls() if cal and cal["name"] == "realloc"]
+    if not re_:
+        raise core.AnalysisBroken("GE-7: the reallocation of the index columns was not found in slicemultiply")
+    last_re = max(f.seq(i) for i in re_)
+    after = [s_ for s_ in stores if f.seq(s_[0]) > last_re]
+    own = [s_ for s_ in after if s_[1] == "dim"]
+    other = [s_ for s_ in after if s_[1] != "dim"]
+    C.ob("GE-7", "slicemultiply", "multiplied-dimension-column", len(own) == 1 and not any(f.k(a) in ("IfStmt", "SwitchStmt") for a in f.ancestors(own[0][0])),
+         f.loc(own[0][0]) if own else f.where(), "a->i[dim][row] is stored for every entry: %s" % [f.render(s_[0])[:50] for s_ in own])
+    ok, det = False, "no store into the other index columns after the reallocation"
+    if len(other) == 1:
+        i = other[0][0]
+        loops = [a for a in f.ancestors(i) if f.k(a) in ("ForStmt", "WhileStmt", "DoStmt")]
+        branches = [a for a in f.ancestors(i) if f.k(a) in ("IfStmt", "SwitchStmt", "ConditionalOperator")]
+        jumps = [x for x in f.walk(f.nodes[loops[0]]["body"]) if f.k(x) in ("ContinueStmt", "BreakStmt", "GotoStmt")] if loops else []
+        kcond = f.render(f.nodes[loops[0]]["cond"]).replace(" ", "") if loops else ""
+        kinit = f.render(f.nodes[loops[0]]["init"]).replace(" ", "") if loops and f.nodes[loops[0]].get("init", -1) >= 0 else ""
+        full = len(loops) == 2 and kinit in ("(k=(dim+1))",) and kcond in ("(k<(dim+a->ndim))", "(k<(a->ndim+dim))")
+        ok = full and not branches and not jumps
+        det = "columns (k %% ndim) for k = dim+1 .. dim+ndim-1, each stored for every entry (inner loop %s; %s; no branch, no jump)" % (kinit, kcond) if ok else \
+            "the store %s is not executed for every other dimension of every entry (inner loop `%s; %s`, enclosing branches: %d, continue/break in the loop: %d): " \
+            "the skipped columns keep what realloc left there" % (f.render(i)[:50], kinit, kcond, len(branches), len(jumps))
+    C.ob("GE-7", "slicemultiply", "other-columns", ok, f.loc(other[0][0]) if other else f.where(), det)
